@@ -26,7 +26,10 @@ Permitted(allow, c) == CASE allow = "all"     -> TRUE
 (* schema has not loaded), followed during validation; "mapper": an include whose      *)
 (* location is rewritten by the user's URI mapper - the class is that of the MAPPED    *)
 (* location, the one that is finally opened.                                           *)
-Mechanisms == {"include", "import", "redefine", "override", "hint", "mapper"}
+(* "locations": a location given for a namespace with the schema's `locations` argument,   *)
+(* loaded when the namespace is needed (at build time, or later when validation meets an      *)
+(* element of that namespace under a wildcard).                                               *)
+Mechanisms == {"include", "import", "redefine", "override", "hint", "mapper", "locations"}
 Spellings  == {"relative", "dotted", "absolute", "fileurl", "encoded"}
 
 VARIABLES allow, main, refs, opened, blocked, loaded, step
